@@ -21,10 +21,24 @@ let show_pkt (p : pkt) =
   Printf.sprintf "%s.%d.%d.%d" (match p.k_body with None -> "z" | Some b -> string_of_int (iz b))
     (iz p.k_sid) (iz p.k_ns) (iz p.k_nr)
 let show_pkts l = "[" ^ String.concat "," (List.map show_pkt l) ^ "]"
+(* writes that succeeded, then the write that failed (prefixed with !) *)
+let show_pkts_f o er =
+  "[" ^ String.concat "," (List.map show_pkt o @ (match er with None -> [] | Some p -> ["!" ^ show_pkt p])) ^ "]"
+(* Tick: every attempted write in order, the failing positions prefixed with ! *)
+let show_tick_obs drops = function
+  | OTick (ret, o, dead) ->
+    "T" ^ (match ret with None -> "z" | Some t -> string_of_int (iz t)) ^
+    "[" ^ String.concat "," (List.mapi (fun i p -> (if List.mem i drops then "!" else "") ^ show_pkt p) o) ^ "]" ^
+    (if dead then "!" else ".")
+  | _ -> "?"
+(* fault token: f<j> -> the (j+1)-th write of the operation fails; f<i>.<k> for Tick *)
+let fault_of l = match l with [f] when String.length f > 1 && f.[0] = 'f' -> Some (nat_of_int (ios (String.sub f 1 (String.length f - 1)))) | _ -> None
+let drops_of l = match l with [f] when String.length f > 1 && f.[0] = 'f' ->
+    List.map ios (String.split_on_char '.' (String.sub f 1 (String.length f - 1))) | _ -> []
 let show_obs = function
   | ONone -> "-"
-  | OSubmit o -> "S" ^ show_pkts o
-  | ODeliver (h, o) -> "D" ^ (if h then "1" else "0") ^ "@" ^ show_pkts o
+  | OSubmit (o, er) -> "S" ^ show_pkts_f o er
+  | ODeliver (h, o, er) -> "D" ^ (if h then "1" else "0") ^ "@" ^ show_pkts_f o er
   | OTick (ret, o, dead) ->
     "T" ^ (match ret with None -> "z" | Some t -> string_of_int (iz t)) ^ show_pkts o ^ (if dead then "!" else ".")
   | OWin -> "W"
@@ -50,20 +64,21 @@ let run_pair zlb_recv toks =
     let trA = ref [] and trB = ref [] in
     let tr x = match x with SA -> trA | SB -> trB in
     let out = Buffer.create 256 in
-    let apply ?(kindc="") x ev =
+    let apply ?(kindc="") ?(drops=[]) x ev =
       let before = List.length (ep_of !s x).e_sent in
       let (s', o) = step zlb_recv !s ev in
       s := s';
       let after = List.length (ep_of !s x).e_sent in
       let t = tr (other x) in
       t := !t @ List.init (after - before) (fun i -> before + i);
-      Buffer.add_string out (mark kindc (show_obs o) ^ "/" ^ show_state (ep_of !s x) ^ " ") in
+      let so = (match o with OTick _ -> show_tick_obs drops o | _ -> show_obs o) in
+      Buffer.add_string out (mark kindc so ^ "/" ^ show_state (ep_of !s x) ^ " ") in
     List.iter (fun op ->
         let f = String.split_on_char ':' op in
         let kind = op.[0] and x = side_of op.[1] in
         match kind, List.tl f with
-        | 's', [b; sid; t] -> apply x (Submit (x, zi (ios b), zi (ios sid), zi (ios t)))
-        | ('d' | 'u'), [k; t] ->
+        | 's', (b :: sid :: t :: fl) -> apply x (Submit (x, zi (ios b), zi (ios sid), zi (ios t), fault_of fl))
+        | ('d' | 'u'), (k :: t :: fl) ->
           let l = !(tr x) in
           if l = [] then Buffer.add_string out "- "
           else begin
@@ -71,17 +86,17 @@ let run_pair zlb_recv toks =
             let idx = List.nth l k in
             if kind = 'd' then (tr x) := remove_nth k l;
             let p = List.nth (ep_of !s (other x)).e_sent idx in
-            apply ~kindc:(if p.k_body = None then "z" else "m") x (Deliver (x, nat_of_int idx, zi (ios t)))
+            apply ~kindc:(if p.k_body = None then "z" else "m") x (Deliver (x, nat_of_int idx, zi (ios t), fault_of fl))
           end
         | 'x', [k] ->
           let l = !(tr x) in
           if l = [] then Buffer.add_string out "- "
           else begin (tr x) := remove_nth (ios k mod List.length l) l; Buffer.add_string out "X " end
-        | 'j', [b; sid; ns; nr; t] ->
+        | 'j', (b :: sid :: ns :: nr :: t :: fl) ->
           let p = { k_body = (if b = "z" then None else Some (zi (ios b))); k_sid = zi (ios sid);
                     k_ns = zi (ios ns); k_nr = zi (ios nr) } in
-          apply ~kindc:(if p.k_body = None then "z" else "m") x (Inject (x, p, zi (ios t)))
-        | 't', [t] -> apply x (Tick (x, zi (ios t)))
+          apply ~kindc:(if p.k_body = None then "z" else "m") x (Inject (x, p, zi (ios t), fault_of fl))
+        | 't', (t :: fl) -> let d = drops_of fl in apply ~drops:d x (Tick (x, zi (ios t), List.map nat_of_int d))
         | 'w', [w] -> apply x (SetWin (x, zi (ios w)))
         | _ -> Buffer.add_string out "badop ") ops;
     let a = !s.s_a and b = !s.s_b in
@@ -102,8 +117,8 @@ let run_disp zlb_recv toks =
           | ["i"; kind; ns; nr] ->
             let p = { k_body = (if kind = "z" then None else Some (zi 1)); k_sid = Z0;
                       k_ns = zi (ios ns); k_nr = zi (ios nr) } in
-            ep_deliver zlb_recv !e p Z0
-          | ["s"; b; sid] -> ep_submit !e (zi (ios b)) (zi (ios sid)) Z0
+            ep_deliver false !e p Z0 None
+          | ["s"; b; sid] -> ep_submit !e (zi (ios b)) (zi (ios sid)) Z0 None
           | _ -> (!e, ONone) in
         e := e';
         let c = !e.e_ch in
@@ -149,8 +164,9 @@ let run_full toks =
 
 let () =
   let lines = read_lines Sys.argv.(1) in
-  let variant = if Array.length Sys.argv > 3 then Sys.argv.(3) else "repaired" in
-  let zlb_recv = (variant = "defective") in
+  (* one model: what /repo HEAD does (all C16 findings are fixed); the pre-fix behaviours survive only as
+     the refuted theorem in Properties.v, not in the correspondence *)
+  let zlb_recv = false in
   List.iter (fun line ->
       match tokens line with
       | [] -> ()
@@ -163,7 +179,7 @@ let () =
            has no receive step in front of the handler, every copy opens a tunnel *)
         let data ns nr = { k_body = Some (zi 1); k_sid = Z0; k_ns = zi ns; k_nr = zi nr } in
         let e0 = new_endpoint Z0 Z0 Z0 Z0 (zi 16) Z0 Z0 in
-        let handed e = match ep_deliver false e (data 0 0) Z0 with (e', ODeliver (h, _)) -> (e', h) | (e', _) -> (e', false) in
+        let handed e = match ep_deliver false e (data 0 0) Z0 None with (e', ODeliver (h, _, _)) -> (e', h) | (e', _) -> (e', false) in
         let (e1, h1) = handed e0 in
         let (_, h2) = handed e1 in
         let count = (if h1 then 1 else 0) + (if zlb_recv then 1 else if h2 then 1 else 0) in
@@ -180,6 +196,25 @@ let () =
         let nr = n.n_ep.e_ch.c_nr in
         let acked = List.exists (fun q -> q.k_nr = nr && iz nr = 3) n.n_ep.e_sent in
         Printf.printf "stopccn nr=%d acked=%d\n" (iz nr) (if acked then 1 else 0)
+      | ["idle"; gap] ->
+        (* LNS tunnel: SCCRQ (reply SCCRP), SCCCN at time 0; the runner ticks by runner_next starting at 200 ms;
+           after [gap] ms of silence a Hello (no reply of its own) arrives.  Is a packet carrying Nr = 3 sent
+           within zlbDelay + 500 + 50 ms of the Hello? *)
+        let data ns nr = { k_body = Some (zi 1); k_sid = Z0; k_ns = zi ns; k_nr = zi nr } in
+        let msg ns nr rep now = NMsg ({ m_tid_ok = true; m_pkt = data ns nr; m_replies = rep; m_removes = false }, zi now) in
+        let e0 = apply_peer_window (new_endpoint Z0 Z0 Z0 Z0 (zi 16) Z0 Z0) (Some (zi 16)) in
+        let n = ref (node_run { n_known = true; n_ep = e0 } [msg 0 0 [(zi 1, Z0)] 0; msg 1 1 [] 0]) in
+        let th = ios gap in
+        let t = ref 200 and hello_done = ref false and acked_at = ref (-1) in
+        while !t <= th + 2000 && !acked_at < 0 do
+          if (not !hello_done) && !t >= th then begin n := node_step !n (msg 2 1 [] th); hello_done := true end;
+          let before = List.length !n.n_ep.e_sent in
+          let (e', o) = ep_tick !n.n_ep (zi !t) [] in
+          n := { !n with n_ep = e' };
+          List.iteri (fun i q -> if i >= before && iz q.k_nr = 3 then acked_at := !t) e'.e_sent;
+          (match o with OTick (ret, _, _) -> t := iz (runner_next ret (zi !t)) | _ -> t := !t + 500)
+        done;
+        Printf.printf "idle acked=%d\n" (if !acked_at >= 0 && !acked_at <= th + 200 + 500 + 50 then 1 else 0)
       | ["overlap"] ->
         (* channel operations are atomic steps in the model: while Tick is inside the channel, Recv has to wait;
            defective = today's unsynchronised goroutines (runner Tick / punt Recv / Hello Send) *)
@@ -191,8 +226,8 @@ let () =
         let adv = if w = "-" then 4 else ios w in
         let setw e = if zlb_recv then e else fst (ep_setwin e (zi adv)) in
         let data ns nr = { k_body = Some (zi 1); k_sid = Z0; k_ns = zi ns; k_nr = zi nr } in
-        let del e ns nr = fst (ep_deliver false e (data ns nr) Z0) in
-        let sub e = fst (ep_submit e (zi 1) Z0 Z0) in
+        let del e ns nr = fst (ep_deliver false e (data ns nr) Z0 None) in
+        let sub e = fst (ep_submit e (zi 1) Z0 Z0 None) in
         let e0 = new_endpoint Z0 Z0 Z0 Z0 (zi 16) Z0 Z0 in
         let e =
           if role = "lns" then begin
@@ -213,9 +248,9 @@ let () =
         (* the harness's SCCRQ advertises a Receive Window Size of 4 *)
         let e = if zlb_recv then e else fst (ep_setwin e (zi 4)) in
         let p = { k_body = Some (zi 1); k_sid = Z0; k_ns = zi (ios ns); k_nr = zi (ios nr) } in
-        let (e1, o1) = ep_deliver zlb_recv e p Z0 in
-        let (e2, o2) = ep_submit e1 (zi 1) Z0 Z0 in
-        let pk = (match o1 with ODeliver (_, l) -> l | _ -> []) @ (match o2 with OSubmit l -> l | _ -> []) in
+        let (e1, o1) = ep_deliver false e p Z0 None in
+        let (e2, o2) = ep_submit e1 (zi 1) Z0 Z0 None in
+        let pk = (match o1 with ODeliver (_, l, _) -> l | _ -> []) @ (match o2 with OSubmit (l, _) -> l | _ -> []) in
         let c = e2.e_ch in
         Printf.printf "S%s/%d,%d,%d,%d |\n" (show_pkts pk) (iz c.c_ns) (iz c.c_nr) (iz c.c_cwnd) (iz c.c_ssth)
       | ["seqless"; a; b] -> print_endline (if seq_less (zi (ios a)) (zi (ios b)) then "1" else "0")
